@@ -32,9 +32,66 @@ def ret_expr(src, sig, what):
     return m.group(1)
 
 
+SKELETON_FILE = os.path.join(os.path.dirname(os.path.abspath(__file__)), "c04_skeleton.json")
+# every function / class of src/xss.cpp that Model.lean or Uri.lean transcribes by hand
+SKELETON_UNITS = [
+    ("integer_property_functor", r"bool\s+integer_property_functor\s*\("),
+    ("rules_holder::add_tag", r"void\s+add_tag\s*\(std::string\s+const\s*&name,rules::tag_type\s+type\)\s*\{"),
+    ("rules_holder::add_property", r"void\s+add_property\s*\(std::string\s+const\s*&tname,std::string\s+const\s*&pname,validator_type\s+const\s*&r\)\s*\{"),
+    ("rules_holder::valid_tag", r"rules::tag_type\s+valid_tag\s*\(c_string\s+const\s*&t\)\s*const\s*\{"),
+    ("rules_holder::valid_boolean_property", r"bool\s+valid_boolean_property\s*\(c_string\s+const\s*&tname,c_string\s+const\s*&pname\)\s*const\s*\{"),
+    ("rules_holder::valid_property", r"bool\s+valid_property\s*\(c_string\s+const\s*&tname,c_string\s+const\s*&pname,c_string\s+const\s*&value\)\s*const\s*\{"),
+    ("basic_rules_holder::valid_entity", r"bool\s+valid_entity\s*\(c_string\s+const\s*&name\)\s*const\s*\{"),
+    ("rules::impl", r"basic_rules_holder\s+const\s*&rules::impl\(\)\s*const\s*\{"),
+    ("ascii_streq", r"bool\s+ascii_streq\s*\("),
+    ("ends_with", r"bool\s+ends_with\s*\("),
+    ("validate_property_value", r"bool\s+validate_property_value\s*\("),
+    ("parse_properties", r"void\s+parse_properties\s*\("),
+    ("parse_html_entity", r"void\s+parse_html_entity\s*\("),
+    ("parse_html_tag", r"void\s+parse_html_tag\s*\("),
+    ("parse_part", r"void\s+parse_part\s*\("),
+    ("split_to_parts", r"void\s+split_to_parts\s*\("),
+    ("validate_nesting", r"void\s+validate_nesting\s*\("),
+    ("validate_entry_by_rules", r"bool\s+validate_entry_by_rules\s*\("),
+    ("validate", r"bool\s+validate\s*\(char\s+const\s*\*begin,char\s+const\s*\*end,rules\s+const\s*&r\)\s*\{"),
+    ("validate_and_filter_if_invalid", r"bool\s+validate_and_filter_if_invalid\s*\("),
+    ("filter(begin,end)", r"std::string\s+filter\s*\(\s*char\s+const\s*\*begin,"),
+    ("filter(string)", r"std::string\s+filter\s*\(\s*std::string\s+const\s*&input,"),
+    ("class uri_parser", r"class\s+uri_parser\s*\{"),
+    ("struct uri_validator_functor", r"struct\s+uri_validator_functor\s*\{"),
+    ("rules::uri_validator(scheme,absolute_only)", r"rules::validator_type\s+rules::uri_validator\(std::string\s+const\s*&scheme,bool\s+absolute_only\s*\)\s*\{"),
+    ("rules::relative_uri_validator", r"rules::validator_type\s+rules::relative_uri_validator\(\)\s*\{"),
+]
+
+
+def skeleton_of(text):
+    """control skeleton: data constants (string / character literals, hexadecimal numbers) are masked - they reach the proofs
+    through Gen.lean -, everything else (identifiers, operators, decimal offsets, structure) is kept, white space normalised"""
+    import hashlib
+    t = re.sub(r'"(?:\\.|[^"\\])*"|\'(?:\\.|[^\'\\])\'', lambda m: "S" if m.group(0)[0] == '"' else "C", text)
+    t = re.sub(r"\b0[xX][0-9a-fA-F]+\b", "H", t)
+    toks = re.findall(r"[A-Za-z_]\w*|\d+|\S", t)
+    return hashlib.sha256(" ".join(toks).encode()).hexdigest()[:20]
+
+
+def check_skeletons(xss, update):
+    import json
+    cur = {}
+    for name, sig in SKELETON_UNITS:
+        cur[name] = skeleton_of(function_body(xss, sig))
+    if update:
+        json.dump(cur, open(SKELETON_FILE, "w"), indent=1, sort_keys=True)
+        return
+    need(os.path.exists(SKELETON_FILE), "translate/c04_skeleton.json is missing")
+    exp = json.load(open(SKELETON_FILE))
+    changed = [n for n, _ in SKELETON_UNITS if exp.get(n) != cur[n]]
+    need(not changed, "control skeleton changed (hand-transcribed in Model.lean / Uri.lean; data constants are masked): " + ", ".join(changed))
+
+
 def main(repo, lean):
     xss = strip_c_comments(open(os.path.join(repo, "src/xss.cpp")).read())
     cstr = strip_c_comments(open(os.path.join(repo, "private/c_string.h")).read())
+    check_skeletons(xss, "--update-skeleton" in sys.argv)
     o = []
     w = o.append
     w("/- GENERATED by translate/c04.py from src/xss.cpp and private/c_string.h. Do not edit. -/")
@@ -182,6 +239,42 @@ def main(repo, lean):
          and re.search(r"case\s+relative\s*:\s*if\s*\(\s*!parser\.parse\(\)\s*\)\s*return\s+false\s*;\s*if\s*\(\s*parser\.has_scheme\(\)\s*\)\s*return\s+false\s*;\s*return\s+true\s*;", uvf)
          and re.search(r"case\s+full\s*:\s*if\s*\(\s*!parser\.parse_full\(\)\s*\)\s*return\s+false\s*;\s*if\s*\(\s*!parser\.has_scheme\(\)\s*\)\s*return\s+false\s*;\s*return\s+booster::regex_match\(parser\.scheme_begin\(\),parser\.scheme_end\(\),scheme_\)\s*;", uvf),
          "uri_validator_functor: the both/relative/full cases no longer have the shape Uri.lean transcribes")
+
+    # ---- uri_parser: character classes and small conditions (Uri.lean takes them from here)
+    m = re.search(r"class\s+uri_parser\s*\{(.*?)\n\t\};\s*//\s*uri_parser|class\s+uri_parser\s*\{(.*?)\n\t\};", xss, re.S)
+    need(m, "class uri_parser")
+    up = m.group(1) or m.group(2)
+    for cname, lname in (("is_digit", "uriIsDigit"), ("is_alapha", "uriIsAlpha"), ("is_hex", "uriIsHex")):
+        mm = re.search(r"static\s+bool\s+" + cname + r"\s*\(\s*char\s+c\s*\)\s*\{\s*return\s+([^;]+);\s*\}", up)
+        need(mm, "uri_parser::" + cname)
+        w(f"/-- `uri_parser::{cname}` -/")
+        w(f"def {lname} (c : Nat) : Bool := " + c_to_lean(mm.group(1), funcs={"is_digit": "uriIsDigit", "is_alapha": "uriIsAlpha"}))
+    body = function_body(up, r"bool\s+unreserved\s*\(\s*\)\s*\{")
+    mm = re.search(r"char\s+c=\*begin_;\s*if\s*\((.*?)\)\s*\{\s*begin_\+\+;\s*return\s+true;\s*\}\s*return\s+false;", body, re.S)
+    need(mm, "uri_parser::unreserved")
+    w("def uriUnreserved (c : Nat) : Bool := " + c_to_lean(mm.group(1), funcs={"is_digit": "uriIsDigit", "is_alapha": "uriIsAlpha"}))
+    body = function_body(up, r"bool\s+sub_delims\s*\(\s*\)\s*\{")
+    mm = re.search(r"if\s*\(\s*follows\(\"((?:\\.|[^\"\\])*)\"\)\s*\|\|\s*follows\(\"((?:\\.|[^\"\\])*)\"\)\s*\)\s*return\s+true;\s*switch\s*\(\*begin_\)\s*\{((?:\s*case\s+'(?:\\.|[^'\\])'\s*:)+)\s*begin_\s*\+\+;\s*return\s+true;\s*\}\s*return\s+false;", body)
+    need(mm, "uri_parser::sub_delims")
+    w("def uriRefs : List (List Nat) := [" + lean_bytes(c_string_bytes(mm.group(1))) + ", " + lean_bytes(c_string_bytes(mm.group(2))) + "]")
+    w("def uriSubDelims : List Nat := " + lean_bytes([char_val(x) for x in re.findall(r"'(?:\\.|[^'\\])'", mm.group(3))]))
+    body = function_body(up, r"bool\s+scheme\s*\(\s*\)\s*\{")
+    mm = re.search(r"if\s*\(\s*begin_==end_\s*\|\|\s*!is_alapha\(\*begin_\)\s*\)\s*return\s+false;.*?while\s*\(\s*begin_!=end_\s*&&\s*\((.*?)\)\)\s*begin_\+\+;", body, re.S)
+    need(mm, "uri_parser::scheme")
+    w("def uriSchemeChar (c : Nat) : Bool := " + c_to_lean(mm.group(1).replace("(c=*begin_)", "c"), funcs={"is_digit": "uriIsDigit", "is_alapha": "uriIsAlpha"}))
+    body = function_body(up, r"bool\s+pct_encoded\s*\(\s*\)\s*\{")
+    mm = re.search(r"if\s*\(\s*end_\s*-\s*begin_\s*>=\s*3\s*&&\s*begin_\[0\]\s*==\s*('(?:\\.|[^'\\])')\s*&&\s*is_hex\(begin_\[1\]\)\s*&&\s*is_hex\(begin_\[2\]\)\s*\)\s*\{\s*begin_\+=3;", body)
+    need(mm, "uri_parser::pct_encoded")
+    w(f"def uriPct : Nat := {char_val(mm.group(1))}")
+    body = function_body(up, r"bool\s+dec_octet\s*\(\s*\)\s*\{")
+    mm = re.search(r"while\s*\(\s*begin_!=end_\s*&&\s*is_digit\(\(c=\*begin_\)\)\s*&&\s*count<(\d+)\s*\)\s*\{\s*count\s*\+\+;\s*value\s*=\s*([^;]+);\s*\}\s*if\s*\(([^)]*)\)\s*return\s+false;\s*if\s*\(([^)]*)\)\s*return\s+false;\s*if\s*\(([^)]*)\)\s*return\s+false;\s*if\s*\(([^)]*)\)\s*return\s+false;\s*sp\.commit\(\);", body)
+    need(mm, "uri_parser::dec_octet (incl. the loop that does not advance begin_)")
+    w(f"def uriDecOctetMax : Nat := {mm.group(1)}")
+    w("def uriDecOctetStep (value c : Nat) : Nat := " + c_to_lean(mm.group(2)))
+    w("def uriDecOctetReject (value count : Nat) : Bool := " + " || ".join("(" + c_to_lean(mm.group(k)) + ")" for k in (3, 4, 5, 6)))
+    for fn, chars in (("pchar", None), ("query", None)):
+        pass
+    w("")
 
     # ---- integer_property_functor
     body = function_body(xss, r"bool\s+integer_property_functor\s*\(")
